@@ -353,6 +353,9 @@ func cmdCheck(args []string) int {
 			failed := map[string]string{}
 			for _, v := range hr.Violations {
 				key := v.Kind + "|" + v.Msg
+				if v.Kind == "race" {
+					key = "race" // one native confirmation per harness: goroutine ids in the message vary
+				}
 				if done[key] {
 					continue
 				}
